@@ -67,7 +67,38 @@ fn run_slice(fields: &[&str], cases: &mut impl Write, out: &mut impl Write) {
     let fs: Vec<&str> = formulas.iter().map(|s| s.as_str()).collect();
     let p = w.p();
     let n = w.n();
-    let res = match model_check_multiple_formulae(fs.clone(), &w.graph) {
+    // optional context sets (extended formulae): label=spec; the model side gets their slices
+    let mut context: HashMap<String, GraphColoredVertices> = HashMap::new();
+    let mut ctx_bits: Vec<(String, String)> = Vec::new();
+    if let Some(specs) = fields.get(6) {
+        for item in split_list(specs) {
+            if item == "-" || item.is_empty() {
+                continue;
+            }
+            let (label, spec) = item.split_once('=').unwrap();
+            match crate::make_context_set(&w, spec) {
+                Ok((set, Some(bits))) => {
+                    context.insert(unhex(label), set);
+                    ctx_bits.push((label.to_string(), bits));
+                }
+                Ok((_, None)) => {
+                    writeln!(out, "{id} SKIP context:no-table").unwrap();
+                    return;
+                }
+                Err(e) => {
+                    writeln!(out, "{id} SKIP context:{}", clean(&e)).unwrap();
+                    return;
+                }
+            }
+        }
+    }
+    let extended = !context.is_empty();
+    let res = if extended {
+        model_check_multiple_extended_formulae(fs.clone(), &w.graph, &context)
+    } else {
+        model_check_multiple_formulae(fs.clone(), &w.graph)
+    };
+    let res = match res {
         Ok(r) => r,
         Err(e) => {
             writeln!(out, "{id} ERR {}", clean(&e)).unwrap();
@@ -101,12 +132,15 @@ fn run_slice(fields: &[&str], cases: &mut impl Write, out: &mut impl Write) {
         // the network instantiated by colour c, as tables over the states only
         let upd_c: Vec<&str> = upd_tables.iter().map(|t| &t[lo..hi]).collect();
         let unit_c = "1".repeat(1 << n);
+        let ctx_c: Vec<String> = ctx_bits.iter().map(|(l, b)| format!("{l}:{}", &b[lo..hi])).collect();
         for suffix in ["", "#o"] {
             writeln!(
                 cases,
-                "EVAL\t{id}#c{c}{suffix}\ts{}\t0\t{n}\t{k}\t{names}\t{}\t{unit_c}\t-\t{}",
+                "EVAL\t{id}#c{c}{suffix}\t{}s{}\t0\t{n}\t{k}\t{names}\t{}\t{unit_c}\t{}\t{}",
+                if extended { "e" } else { "" },
                 if suffix.is_empty() { "" } else { "o" },
                 upd_c.join(","),
+                if ctx_c.is_empty() { "-".to_string() } else { ctx_c.join(",") },
                 fields[4]
             )
             .unwrap();
@@ -127,6 +161,9 @@ fn run_slice(fields: &[&str], cases: &mut impl Write, out: &mut impl Write) {
             .mk_conjunctive_clause(&pv);
         let colour = GraphColors::new(clause, w.graph.symbolic_context());
         let colour = colour.intersect(w.graph.unit_colors());
+        if extended {
+            continue; // context sets are given on the parametrised graph only
+        }
         let r = catch_unwind(AssertUnwindSafe(|| -> Result<String, String> {
             let witness = w.graph.pick_witness(&colour);
             let g2 = get_extended_symbolic_graph(&witness, k as u16)?;
